@@ -39,6 +39,18 @@ Modules == {
    items |-> J("s1", Elem(TagMember("o2", "widget", Opq("vo2widget")), <<>>, <<ChExpr(Ident("cu", FALSE, PVNode("pv")))>>))],
   [id |-> "othertag", uses |-> {}, lang |-> "jsx",
    items |-> J("s1", Elem(TagCustom("x-bar"), <<>>, <<ChText(<<"b">>)>>))],
+  \* further modules given as text: features no option governs (directives, fragments, SVG, KeepAlive, nested functions)
+  [id |-> "fragment", uses |-> {}, lang |-> "jsx", items |-> << [k |-> "raw", text |-> "export const s = <><b/>t</>;"] >>],
+  [id |-> "vmodel", uses |-> {}, lang |-> "jsx", items |-> << [k |-> "raw", text |-> "export const s = <input v-model={x} />;"] >>],
+  [id |-> "vmodelcomp", uses |-> {}, lang |-> "jsx", items |-> << [k |-> "raw", text |-> "export const s = <Foo v-model:title_trim={x} />;"] >>],
+  [id |-> "vcustom", uses |-> {}, lang |-> "jsx", items |-> << [k |-> "raw", text |-> "export const s = <div v-foo:arg_mod={x} />;"] >>],
+  [id |-> "vhtml", uses |-> {}, lang |-> "jsx", items |-> << [k |-> "raw", text |-> "export const s = <div v-html={h} id=\"a\" />;"] >>],
+  [id |-> "keepalive", uses |-> {}, lang |-> "jsx", items |-> << [k |-> "raw", text |-> "import { KeepAlive } from 'vue';\nexport const s = <KeepAlive>{cu}</KeepAlive>;"] >>],
+  [id |-> "vslots", uses |-> {"objslot"}, lang |-> "jsx", items |-> << [k |-> "raw", text |-> "export const s = <Foo v-slots={sl}>{cu}</Foo>;"] >>],
+  [id |-> "svg", uses |-> {}, lang |-> "jsx", items |-> << [k |-> "raw", text |-> "export const s = <svg><path d=\"M0\"/></svg>;"] >>],
+  [id |-> "nestedfn", uses |-> {}, lang |-> "jsx", items |-> << [k |-> "raw", text |-> "export function f(a) { return () => <div class={a}>{a}</div>; }"] >>],
+  [id |-> "onboth", uses |-> {"on", "merge"}, lang |-> "jsx", items |-> << [k |-> "raw", text |-> "export const s = <Foo onClick={h} on={o} />;"] >>],
+  [id |-> "twospreads", uses |-> {"merge"}, lang |-> "jsx", items |-> << [k |-> "raw", text |-> "export const s = <div {...a} {...b} />;"] >>],
   [id |-> "nojsx", uses |-> {}, lang |-> "jsx", items |-> << [k |-> "raw", text |-> "const q = 1;\nexport default q;"] >>],
   [id |-> "definecomponent", uses |-> {"definecomponent"}, lang |-> "tsx",
    items |-> << [k |-> "raw", text |-> "import { defineComponent } from 'vue';\nexport const C = defineComponent((props: { a?: string, b: number }) => () => <div>{props.a}</div>);"] >>],
